@@ -1,111 +1,166 @@
 import RedisVerif.Model.Shards
 
 /-
-  M7/ShardsClock — the per-shard CLOCK and key expiry under the sharding layer, for a handful of
-  commands (SET [PX], GET, EXISTS, DBSIZE, fast/pooled GET/SET).
+  M7/ShardsClock — the per-shard CLOCK and key expiry under the sharding layer.
 
-  Anchors: /repo/src/production/sharded_actor.rs (`ShardActor::run`: the `Command` arm calls
-  `executor.set_time(virtual_time)` before executing; the Fast*/PooledFast* arms do so only since
-  the fix "fast/pooled/batch shard messages carry the virtual time" — flag `carries`),
-  /repo/src/redis/executor/mod.rs (`set_time` = set the clock + `evict_expired_keys`,
-  `is_expired`: `expiration <= current_time`, `get_value`: lazy removal, `get_direct`,
-  `set_direct`: clears the expiration, `execute_dbsize`/`execute_exists`: skip expired keys),
-  string_ops.rs (`execute_set`: `PX ms` → `current_time + ms`, no option → expiration cleared).
+  Anchors: /repo/src/production/sharded_actor.rs — `ShardActor::run`: EVERY message arm
+  (`Command`, `FastGet`, `FastSet`, `PooledFastGet`, `PooledFastSet`, `FastBatchGet`,
+  `FastBatchSet`) starts with `self.executor.set_time(virtual_time)` (the fast arms since fix
+  ef50533); `ShardedActorState::{execute, fast_*, pooled_fast_*, fast_batch_*_pipeline}` stamp the
+  message with `get_current_virtual_time()`.  /repo/src/redis/executor/mod.rs — `set_time` = set
+  the clock + `evict_expired_keys`; `is_expired`: `expiration <= current_time`; `get_value`: an
+  expired key is removed on access; `get_direct`; `set_direct` / `execute_mset` /
+  `execute_batch_set`: store the string and clear the expiration; `execute_dbsize` /
+  `execute_exists`: skip expired keys.  string_ops.rs — `execute_set`: `PX ms` → `current_time +
+  ms`, `EX s` → `current_time + 1000 s`, no option → expiration cleared.
 
-  This is an executable transcription used by the C03 correspondence (timed streams) and by the
-  `stale_clock_counterexample`; the refinement theorems of `Props/C03.lean` are about the untimed
-  model (expiry semantics proper is C01's).  Imports only core.
+  Whether a message KIND carries the virtual time (= its arm calls `set_time`) is a parameter
+  `Carries : Kind → Bool`: `allCarry` is the code; a kind that does not carry it judges expiry
+  against the clock its shard saw at its last time-carrying message.
+
+  Per-key operations are written in slot form (`slotT`): an expired old entry is treated as
+  absent (and dropped), which is what `get_value` does and what every other reader observes.
+  A batch (`fast_batch_*_pipeline`, MGET / MSET) is modelled per key: every shard that receives a
+  sub-batch adopts the time once, then the items run in order, each on its key's shard (shards
+  share no state, so this is the grouped execution; the by-index reassembly is `gatherN_spec`
+  of the untimed model).
+
+  Executable; used by the C03 correspondence (timed streams), by `timed_refines` /
+  `shard_count_unobservable_timed` and the stale-clock counterexamples.  Imports only core.
 -/
 namespace RedisVerif
 namespace Shards
 namespace Clock
 
-/-- one `CommandExecutor`: `data` + `expirations` (deadline in virtual ms) + `current_time` -/
+/-- value + deadline (virtual ms) -/
+abbrev Entry := Bytes × Option Nat
+
+/-- one `CommandExecutor`: `data` + `expirations` + `current_time` -/
 structure TShard where
-  data : NMap (Bytes × Option Nat)
+  data : NMap Entry
   clock : Nat
   deriving DecidableEq, Repr
 
-inductive TCmd
-  | set (k : Key) (v : Bytes)
-  | setPx (k : Key) (v : Bytes) (ms : Nat)
-  | get (k : Key)
-  | exists (k : Key)
-  | dbsize
-  | fastGet (k : Key)
-  | fastSet (k : Key) (v : Bytes)
+/-- the kinds of `ShardMessage` -/
+inductive Kind
+  | generic | fastGet | fastSet | pooledGet | pooledSet | batchGet | batchSet
   deriving DecidableEq, Repr
 
-def expired (clock : Nat) (e : Bytes × Option Nat) : Bool :=
+abbrev Carries := Kind → Bool
+
+/-- the code: every message carries the virtual time -/
+def allCarry : Carries := fun _ => true
+
+/-- per-key operations -/
+inductive KOp
+  | set (v : Bytes)
+  | setPx (v : Bytes) (ms : Nat)
+  | setEx (v : Bytes) (secs : Nat)
+  | get
+  | exists
+  deriving DecidableEq, Repr
+
+inductive TCmd
+  /-- one single-key message of the given kind -/
+  | key (kind : Kind) (k : Key) (op : KOp)
+  /-- a grouped multi-key request: `fast_batch_get_pipeline` (`batchGet`), `fast_batch_set_pipeline`
+      (`batchSet`), MGET / MSET (`generic`: `Command::BatchGet` / `BatchSet`) -/
+  | batch (kind : Kind) (items : List (Key × KOp))
+  | dbsize
+  deriving DecidableEq, Repr
+
+def expired (clock : Nat) (e : Entry) : Bool :=
   match e.2 with
   | some d => decide (d ≤ clock)
   | none => false
+
+/-- what a reader at time `clock` sees of a slot -/
+def liveE (clock : Nat) : Option Entry → Option Entry
+  | some e => if expired clock e then none else some e
+  | none => none
 
 /-- `set_time`: set the clock, evict every key whose deadline has passed -/
 def setTime (sh : TShard) (now : Nat) : TShard :=
   { data := sh.data.filter (fun p => !expired now p.2), clock := now }
 
-/-- `get_value`: an expired key is removed on access -/
-def getValue (sh : TShard) (k : Key) : TShard × Option Bytes :=
-  match NMap.get sh.data k with
-  | none => (sh, none)
-  | some e => if expired sh.clock e then ({ sh with data := NMap.erase k sh.data }, none) else (sh, some e.1)
-
-def bulk : Option Bytes → R1
+def bulk : Option Entry → R1
   | none => .nil
-  | some b => .bulk b
+  | some e => .bulk e.1
 
-/-- what one shard does with a message that is already addressed to it (clock handling excluded) -/
-def shardExec (sh : TShard) : TCmd → TShard × R1
-  | .set k v => ({ sh with data := NMap.insert k (v, none) sh.data }, .ok)
-  | .setPx k v ms => ({ sh with data := NMap.insert k (v, some (sh.clock + ms)) sh.data }, .ok)
-  | .get k => let r := getValue sh k; (r.1, bulk r.2)
-  | .exists k =>
-    (sh, .int (match NMap.get sh.data k with
-      | some e => if expired sh.clock e then 0 else 1
-      | none => 0))
-  | .dbsize => (sh, .int (sh.data.filter (fun p => !expired sh.clock p.2)).length)
-  | .fastGet k => let r := getValue sh k; (r.1, bulk r.2)
-  | .fastSet k v => ({ sh with data := NMap.insert k (v, none) sh.data }, .ok)
+/-- slot-level meaning of a per-key operation at shard time `clock` -/
+def slotT (op : KOp) (clock : Nat) (old : Option Entry) : Option Entry × R1 :=
+  match op with
+  | .set v => (some (v, none), .ok)
+  | .setPx v ms => (some (v, some (clock + ms)), .ok)
+  | .setEx v secs => (some (v, some (clock + 1000 * secs)), .ok)
+  | .get => (liveE clock old, bulk (liveE clock old))
+  | .exists => (liveE clock old, .int (if (liveE clock old).isSome then 1 else 0))
+
+def put (d : NMap Entry) (k : Key) : Option Entry → NMap Entry
+  | none => NMap.erase k d
+  | some e => NMap.insert k e d
+
+/-- one per-key operation on one executor, judged by THAT executor's clock -/
+def keyExec (sh : TShard) (k : Key) (op : KOp) : TShard × R1 :=
+  let r := slotT op sh.clock (NMap.get sh.data k)
+  ({ sh with data := put sh.data k r.1 }, r.2)
 
 def tshard (st : List TShard) (i : Nat) : TShard := st.getD i { data := [], clock := 0 }
 
-/-- a `ShardMessage::Command` to shard `i` at virtual time `now` -/
-def generic (st : List TShard) (i : Nat) (now : Nat) (c : TCmd) : List TShard × R1 :=
-  let r := shardExec (setTime (tshard st i) now) c
-  (st.set i r.1, r.2)
+/-- the shard adopts the message's time iff the message kind carries it -/
+def adopt (K : Carries) (kind : Kind) (sh : TShard) (now : Nat) : TShard :=
+  if K kind then setTime sh now else sh
 
-/-- a `Fast*` / `PooledFast*` message: carries the virtual time only if `carries` -/
-def fast (carries : Bool) (st : List TShard) (i : Nat) (now : Nat) (c : TCmd) : List TShard × R1 :=
-  let sh := if carries then setTime (tshard st i) now else tshard st i
-  let r := shardExec sh c
+def keyExecAt (st : List TShard) (i : Nat) (k : Key) (op : KOp) : List TShard × R1 :=
+  let r := keyExec (tshard st i) k op
   (st.set i r.1, r.2)
 
 def replyNat : R1 → Nat
   | .int i => i.toNat
   | _ => 0
 
-/-- `ShardedActorState` at virtual time `now` (routing is the repaired one: one hash) -/
-def execNT (R : Routes) (carries : Bool) (now : Nat) (st : List TShard) : TCmd → List TShard × R1
+/-- `ShardedActorState` at virtual time `now`, routing by the (one) hash `R.bytes` -/
+def execNT (R : Routes) (K : Carries) (now : Nat) (st : List TShard) : TCmd → List TShard × List R1
+  | .key kind k op =>
+    let i := R.bytes k
+    let r := keyExecAt (st.set i (adopt K kind (tshard st i) now)) i k op
+    (r.1, [r.2])
+  | .batch kind items =>
+    -- every shard that receives a sub-batch adopts the time once …
+    let st1 := (List.range st.length).map (fun i =>
+      if items.any (fun it => R.bytes it.1 == i) then adopt K kind (tshard st i) now else tshard st i)
+    -- … then the items run in order, each on its key's shard
+    items.foldl (fun acc it =>
+      let r := keyExecAt acc.1 (R.bytes it.1) it.1 it.2
+      (r.1, acc.2 ++ [r.2])) (st1, [])
   | .dbsize =>
-    -- DBSIZE to every shard (each sets its clock), integers summed
-    let sts := st.map (fun sh => setTime sh now)
-    (sts, .int ((sts.map (fun sh => replyNat (shardExec sh .dbsize).2)).sum))
-  | .fastGet k => fast carries st (R.bytes k) now (.fastGet k)
-  | .fastSet k v => fast carries st (R.bytes k) now (.fastSet k v)
-  | .set k v => generic st (R.bytes k) now (.set k v)
-  | .setPx k v ms => generic st (R.bytes k) now (.setPx k v ms)
-  | .get k => generic st (R.bytes k) now (.get k)
-  | .exists k => generic st (R.bytes k) now (.exists k)
+    -- a `Command::DbSize` to every shard (generic messages), integers summed
+    let sts := st.map (fun sh => adopt K .generic sh now)
+    (sts, [.int ((sts.map (fun sh => (sh.data.filter (fun p => !expired sh.clock p.2)).length)).sum)])
 
 def tinit (n : Nat) : List TShard := List.replicate n { data := [], clock := 0 }
 
 /-- a timed run: every step is (virtual time, command) -/
-def runNT (R : Routes) (carries : Bool) (st : List TShard) : List (Nat × TCmd) → List R1
+def runNT (R : Routes) (K : Carries) (st : List TShard) : List (Nat × TCmd) → List (List R1)
   | [] => []
   | (now, c) :: cs =>
-    let r := execNT R carries now st c
-    r.2 :: runNT R carries r.1 cs
+    let r := execNT R K now st c
+    r.2 :: runNT R K r.1 cs
+
+/-- virtual time never goes backwards -/
+def Mono : Nat → List (Nat × TCmd) → Prop
+  | _, [] => True
+  | t, (now, _) :: cs => t ≤ now ∧ Mono now cs
+
+def decMono : (t : Nat) → (l : List (Nat × TCmd)) → Decidable (Mono t l)
+  | _, [] => isTrue trivial
+  | t, (now, _) :: cs =>
+    match Nat.decLe t now, decMono now cs with
+    | isTrue h1, isTrue h2 => isTrue ⟨h1, h2⟩
+    | isFalse h, _ => isFalse (fun x => h x.1)
+    | _, isFalse h => isFalse (fun x => h x.2)
+
+instance (t : Nat) (l : List (Nat × TCmd)) : Decidable (Mono t l) := decMono t l
 
 end Clock
 end Shards
